@@ -42,6 +42,16 @@ def cases(seed, tier):
         "suspenders": {"s0": {"cls": "SuspendBoolHigh", "signal": "sigS", "kwargs": {"sleep": sleep}}},
         "script": [{"do": "install_suspender", "sus": "s0"}],
     }
+    if rng.random() < 0.15:
+        # installed by a message of a plan (seen in the event-loop thread) while the signal is already high: the
+        # suspender is tripped from the start and must hold the next plan until the release
+        case["script"] = [{"do": "put", "signal": "sigS", "value": 1}]
+        case["script"].append({"do": "call", "plan": [msg(S, "install_suspender", None, {"sus": "s0"}), msg(S, "null")], "tag": "install-by-message"})
+        case["script"].append({"do": "put_later", "signal": "sigS", "value": 0, "delay": rng.choice([0.3, 1.0, 3.0])})
+        body = [msg(S, "open_run"), msg(S, "checkpoint"), msg(S, "sleep", None, 0.5), msg(S, "checkpoint"), msg(S, "close_run")]
+        case["script"].append({"do": "call", "plan": body, "main": True, "inject": []})
+        yield case
+        return
     ncalls = rng.choice([1, 2])
     removed = False
     for ci in range(ncalls):
@@ -93,7 +103,13 @@ def check(res):
     removed_seq = None
     owed = 0  # trips seen while installed whose request_suspend may still be on its way
     for e in evs:
-        if e.kind == "user" and e.d["do"] == "install_suspender":
+        if (e.kind == "user" and e.d["do"] == "install_suspender") or (e.kind == "msg" and e.d["cmd"] == "install_suspender"):
+            installed = True
+        elif e.kind == "sus_install" and e.d["value"]:
+            # shown a suspending value on installation: tripped from the start
+            if not tripped:
+                release_t = None
+            tripped = True
             installed = True
         elif e.kind == "user_error":
             out.append(V("remove-raised", f"remove_suspender raised {e.d['exc']}: {e.d['text']}"))
@@ -153,8 +169,13 @@ def check(res):
         for e in evs:
             if e.seq >= first_plan.seq:
                 break
-            if e.kind == "user" and e.d["do"] == "install_suspender":
+            if (e.kind == "user" and e.d["do"] == "install_suspender") or (e.kind == "msg" and e.d["cmd"] == "install_suspender"):
                 inst = True
+            elif e.kind == "sus_install" and e.d["value"]:
+                inst = True
+                if not trip:
+                    rel = None
+                trip = True
             elif (e.kind == "user" and e.d["do"] == "remove_suspender") or (e.kind == "inject_begin" and e.d["do"] == "remove_suspender"):
                 if inst and trip:
                     rel = e.t
